@@ -109,9 +109,11 @@ Definition cyl_inside_gen (pre : bool) (r z d h : num N) : bool :=
   (if pre then nleb N (nabs N z) z0 else nleb N (nabs N z') z0') && nleb N r' #1.
 Definition cyl_inside : num N -> num N -> num N -> num N -> bool := cyl_inside_gen cyl_bases_before_scaling.
 
-Definition cyl_JM (fld : fieldT) (mu0 r z d h : num N) (p : vec) : vec :=
-  let j := if cyl_inside r z d h then p else vzero3 in
+Definition cyl_JM_gen (pre : bool) (fld : fieldT) (mu0 r z d h : num N) (p : vec) : vec :=
+  let j := if cyl_inside_gen pre r z d h then p else vzero3 in
   match fld with FM => vdivs j mu0 | _ => j end.
+Definition cyl_JM : fieldT -> num N -> num N -> num N -> num N -> num N -> vec -> vec :=
+  cyl_JM_gen cyl_bases_before_scaling.
 
 End Formulas.
 
@@ -287,9 +289,11 @@ Definition QNum : NumOps := {|
 |}.
 
 (* BHJM_magnet_cylinder(field in "JM") on one row in Cartesian coordinates: r = np.sqrt(x**2 + y**2) *)
-Definition cyl_JM_row {N : NumOps} (mu0 : num N) (fld : fieldT) (x : @crow N) : @vec N :=
+Definition cyl_JM_row_gen {N : NumOps} (pre : bool) (mu0 : num N) (fld : fieldT) (x : @crow N) : @vec N :=
   let '((ox, oy, oz), p, (d, h)) := x in
-  cyl_JM fld mu0 (nsqrt N (nadd N (nmul N ox ox) (nmul N oy oy))) oz d h p.
+  cyl_JM_gen pre fld mu0 (nsqrt N (nadd N (nmul N ox ox) (nmul N oy oy))) oz d h p.
+(* the variant the code has now (flag translated on every run) *)
+Definition cyl_JM_row {N : NumOps} : num N -> fieldT -> @crow N -> @vec N := cyl_JM_row_gen cyl_bases_before_scaling.
 
 (* a body cut along x into consecutive slabs [x0,c1], [c1,c2], ... : sum of the parts' corner sums *)
 Fixpoint slab_sum (F : R -> R -> R -> R) (x0 : R) (cuts : list R) (y0 y1 z0 z1 : R) : R :=
